@@ -101,6 +101,50 @@ func dispatchPart(c *rig.Ctx) {
 		c.Exact(1)
 	})
 
+	// A store to TIMA in the machine cycle after it overflowed (it reads 00 then, the reload from
+	// TMA is still to come) is a store like any other: every value, 00 included, reads back, and
+	// the reload it replaces does not come afterwards.
+	c.Part("tima-after-overflow", 256, func(i int64, r *rig.Rng) {
+		v := uint8(i)
+		for _, tac := range []uint8{0x04, 0x05, 0x06, 0x07} {
+			m := rig.MustNew(rig.BlankROM(0, 0, 0), rig.Opts{})
+			tma := r.Pick8([]uint8{0x5a, 0xa5, 0xfe, 0x01})
+			if tma == v {
+				tma ^= 0x3c
+			}
+			m.Mem.Write(0xff06, tma)
+			m.Mem.Write(0xff05, 0xff)
+			m.Mem.Write(0xff07, tac)
+			step := func() {
+				m.Mem.EndMachineCycle()
+				if m.Timer.EndMachineCycle() {
+					m.IRQ.RequestTimer()
+				}
+			}
+			n := 0
+			for ; n < 400 && m.Mem.Read(0xff05) == 0xff; n++ {
+				step()
+			}
+			if got := m.Mem.Read(0xff05); got != 0x00 {
+				c.Violate("tima-overflow-cycle", fmt.Sprintf("TAC=%02X: TIMA=FF counted up to %02X (after %d cycles), expected 00 in the cycle after the overflow", tac, got, n), nil)
+				return
+			}
+			m.Mem.Write(0xff05, v)
+			for k := 0; k < 3; k++ {
+				if got := m.Mem.Read(0xff05); got != v {
+					c.Violate("readback-tima-after-overflow", fmt.Sprintf("TAC=%02X TMA=%02X: %02X stored to TIMA in the cycle after its overflow: %d cycles later TIMA reads %02X", tac, tma, v, k, got), nil)
+					return
+				}
+				if tac == 0x05 && k == 2 {
+					break // (the next count of the fastest rate is due)
+				}
+				step()
+			}
+			c.Count("tima_stores_after_overflow", 1)
+		}
+		c.Exact(1)
+	})
+
 	// A request bit stored to IF (or raised by the hardware) reads back until it is cleared by a
 	// store or by a dispatch: with the LCD on, every combination of STAT sources selected and no
 	// CPU running, IF is read after every machine cycle over more than a frame - no bit may drop.
